@@ -343,7 +343,9 @@ class Engine:
                         parts.append(self.int_to_str(v.t))
                     else:
                         # the text of a formatted non-string value is abstracted; the literal parts are kept
-                        parts.append(z3.FreshConst(STR, "fmt"))
+                        h = self.method_models.get("__format__")
+                        ft_ = h(self, s0, v) if (h and p.conversion == -1 and p.format_spec is None) else None
+                        parts.append(ft_ if ft_ is not None else z3.FreshConst(STR, "fmt"))
                         faithful = False
             t = parts[0] if len(parts) == 1 else (z3.Concat(*parts) if parts else z3.StringVal(""))
             outs.append((s0, Z("str", t, tag=None if faithful else "fstr")))
